@@ -21,12 +21,14 @@ RULE = ("TLC decides exactly, per state of spec/Convex3.tla and spec/Polygon2.tl
 
 def run(ctx):
     quick = ctx.tier == "quick"
-    with ThreadPoolExecutor(max_workers=4) as ex:
+    with ThreadPoolExecutor(max_workers=5) as ex:
         f1 = ex.submit(cd.emit, ctx, "U12", 6 if quick else 7, curv=True)
         f2 = ex.submit(cd.emit, ctx, "S9", 12, simulate=2 if quick else 30, depth=9, minpts=5, curv=True)
         f3 = ex.submit(pd.emit_polygons, ctx, 2, 5 if quick else 6, True, None, None, True)
         f4 = ex.submit(curved_eval.emit, ctx, ctx.tier)
+        f5 = ex.submit(cd.emit, ctx, "CyclicPrism", 16, minpts=16, curv=True)
         crecs = f1.result() + f2.result()
+        cyc = [r for r in f5.result() if len(r["v"]) == 16]
         precs = f3.result()
         cres = f4.result()
     ctx.tlc(cres, "Curved emission for balls")
@@ -41,7 +43,12 @@ def run(ctx):
             for pl in ([pal[0], pal[1 + k % (len(pal) - 1)]] if quick else pal):
                 out.append({"rec": r, "pl": pl.to_json(), "seed": ctx.seed + k % 1000})
         return out
-    for fn, cs, label in ((be.eval_solid, cases(crecs, "v"), "solid"), (be.eval_polygon, cases(precs, "v"), "polygon")):
+    # the solver fails (and retries under a random rotation) for a few percent of the rotated copies, twice in a row for a few
+    # per mille: several thousand seeded queries
+    from ..placement import palette as _pal
+    cyc_cases = [{"rec": r, "pl": pl.to_json(), "seed": ctx.seed + 31 * i, "repeat": 800 if quick else 4000}
+                 for r in cyc for i, pl in enumerate(_pal(7, ctx.tier)[2:5])]
+    for fn, cs, label in ((be.eval_solid, cases(crecs, "v") + cyc_cases, "solid"), (be.eval_polygon, cases(precs, "v"), "polygon")):
         for case, (mism, _) in zip(cs, pmap(fn, cs)):
             ctx.case((label, json.dumps(case["rec"]["v"]), json.dumps(case["pl"])), nontrivial=True,
                      sample={"kind": label, "vertices": case["rec"]["v"], "placement": case["pl"],
